@@ -110,7 +110,11 @@ def replay(c, cases, config, seed, label, timeout=1200, nproc=None):
     c.cov["engines"].append({"replay": label, "config": config, "cases": len(results),
                              "mismatches": len(bad), "env_steps_executed": envs,
                              "wall_s": round(time.time() - t0, 1)})
+    per_sig = {}
     for r in bad:
+        per_sig[r["sig"]] = per_sig.get(r["sig"], 0) + 1
+        if per_sig[r["sig"]] > 3:
+            continue
         case = cases[r["case"]]
         # confirm once more from a clean DB to rule out harness noise
         again = rerun_one(binp, case, config, seed, d)
